@@ -34,7 +34,7 @@ def _mod_term(e):
     return None
 
 
-def _guard_interval(test):
+def _guard_interval(test, env=None):
     """Chain comparison around one modular term: returns (inner expr, modulus expr, lo Lin, hi Lin)
     meaning lo <= inner % modulus <= hi; None if not of that shape."""
     if not isinstance(test, ast.Compare):
@@ -50,7 +50,7 @@ def _guard_interval(test):
     if i > 0:
         if len(terms[:i]) != 1:
             return None
-        b = to_lin(terms[i - 1], opaque=False)
+        b = _pid_lin(terms[i - 1], env)
         if b is None:
             return None
         if isinstance(ops[i - 1], ast.Lt):
@@ -62,7 +62,7 @@ def _guard_interval(test):
     if i < len(terms) - 1:
         if len(terms[i + 1:]) != 1:
             return None
-        b = to_lin(terms[i + 1], opaque=False)
+        b = _pid_lin(terms[i + 1], env)
         if b is None:
             return None
         if isinstance(ops[i], ast.Lt):
@@ -76,16 +76,16 @@ def _guard_interval(test):
     return inner, mod, lo, hi
 
 
-def _range_bounds(call):
+def _range_bounds(call, env=None):
     """range(n) / range(a, b) -> (lo Lin, hi Lin inclusive) else None."""
     if not (isinstance(call, ast.Call) and isinstance(call.func, ast.Name) and call.func.id == 'range'):
         return None
     a = call.args
     if len(a) == 1:
-        n = to_lin(a[0], opaque=False)
+        n = to_lin(a[0], env or {}, opaque=False)
         return (Lin(0), n - 1) if n is not None else None
     if len(a) == 2:
-        lo, hi = to_lin(a[0], opaque=False), to_lin(a[1], opaque=False)
+        lo, hi = to_lin(a[0], env or {}, opaque=False), to_lin(a[1], env or {}, opaque=False)
         return (lo, hi - 1) if lo is not None and hi is not None else None
     return None
 
@@ -102,19 +102,59 @@ def _subst(lin, name, val):
 SELF = 'self.pid'
 
 
-def _pid_lin(e):
-    """Lin of an expression in which self.pid is the symbol 'self.pid'."""
+def _canon_env(fn):
+    """Local names of fn that denote the threshold in force (symbol T) or the number of parties (symbol M)."""
+    env = {}
+    names = set()
+    for n in iter_nodes(fn.node):
+        if isinstance(n, ast.Assign) and len(n.targets) == 1 and isinstance(n.targets[0], ast.Name):
+            names.add(n.targets[0].id)
+    for nm in names:
+        vals = [v for _, v, _ in definitions(fn.node, nm)]
+        if len(vals) != 1 or vals[0] is None:
+            continue
+        v = vals[0]
+        t = norm(v)
+        if t in ('self.threshold', 'runtime.threshold'):
+            env[nm] = Lin.sym('T')
+        elif isinstance(v, ast.IfExp) and norm(v.body) in ('self.threshold',) and isinstance(v.test, ast.Compare) and len(v.test.ops) == 1 \
+                and isinstance(v.test.ops[0], ast.Is) and norm(v.test.comparators[0]) == 'None' and norm(v.orelse) == norm(v.test.left):
+            env[nm] = Lin.sym('T')       # the threshold requested for this output (default: runtime threshold)
+        elif isinstance(v, ast.IfExp) and norm(v.orelse) in ('self.threshold',) and isinstance(v.test, ast.Compare) and len(v.test.ops) == 1 \
+                and isinstance(v.test.ops[0], ast.IsNot) and norm(v.test.comparators[0]) == 'None' and norm(v.body) == norm(v.test.left):
+            env[nm] = Lin.sym('T')
+        elif t in ('len(self.parties)', 'len(runtime.parties)'):
+            env[nm] = Lin.sym('M')
+    return env
+
+
+def _pid_lin(e, env=None):
+    """Lin of an expression in which self.pid is the symbol 'self.pid', self.threshold is T and
+    len(self.parties) is M; local names are canonicalised through env."""
     class T(ast.NodeTransformer):
         def visit_Attribute(self, n):
-            if norm(n) in ('self.pid', 'runtime.pid', 'rt.pid'):
+            t = norm(n)
+            if t in ('self.pid', 'runtime.pid', 'rt.pid'):
                 return ast.copy_location(ast.Name(id='__selfpid__', ctx=ast.Load()), n)
+            if t in ('self.threshold', 'runtime.threshold'):
+                return ast.copy_location(ast.Name(id='T', ctx=ast.Load()), n)
             return n
+
+        def visit_Call(self, n):
+            if norm(n) in ('len(self.parties)', 'len(runtime.parties)'):
+                return ast.copy_location(ast.Name(id='M', ctx=ast.Load()), n)
+            return self.generic_visit(n)
     import copy
     e2 = T().visit(copy.deepcopy(e))
-    l = to_lin(e2, opaque=False)
+    l = to_lin(e2, env or {}, opaque=False)
     if l is None:
         return None
     return _subst(l, '__selfpid__', Lin.sym(SELF)) if l.coef('__selfpid__') != 0 else l
+
+
+def _same_modulus(a, b, env):
+    la, lb = _pid_lin(a, env), _pid_lin(b, env)
+    return la is not None and lb is not None and la == lb and la == Lin.sym('M')
 
 
 # ---------------------------------------------------------------------------------- SS2
@@ -596,24 +636,24 @@ def rule_SS6(ctx, rep):
     if len(sends) != 1 or len(recvs) != 1:
         raise AnalysisError('SS6: output no longer has one send site and one receive site')
     s = sends[0]
-    guards = [i for i, br in enclosing_ifs(s, pm, stop=fn.node) if br == 'body' and _guard_interval(i.test)]
-    tv = 't'
+    env = _canon_env(fn)
+    guards = [i for i, br in enclosing_ifs(s, pm, stop=fn.node) if br == 'body' and _guard_interval(i.test, env)]
     if not guards:
         rep.bad('SS6', fn, s, 'the send in output is not governed by a modular interval test on (peer - self) % m: '
                 'shares go to parties that do not expect them (or expected shares are never sent)')
     else:
-        inner, mod, lo, hi = _guard_interval(guards[0].test)
-        il = _pid_lin(inner)
+        inner, mod, lo, hi = _guard_interval(guards[0].test, env)
+        il = _pid_lin(inner, env)
         peer = norm(s.args[0])
         want = Lin.sym(peer) - Lin.sym(SELF)
         rcomp = [a for a in ancestors(recvs[0], pm) if isinstance(a, ast.ListComp)]
         okr = False
         if rcomp:
             g = rcomp[0].generators[0]
-            rb = _range_bounds(g.iter)
+            rb = _range_bounds(g.iter, env)
             Rm = _mod_term(recvs[0].args[0])
-            if rb and Rm and norm(Rm[1]) == norm(mod):
-                Rl = _pid_lin(Rm[0])
+            if rb and Rm and _same_modulus(Rm[1], mod, env):
+                Rl = _pid_lin(Rm[0], env)
                 j = norm(g.target)
                 if Rl is not None and Rl.coef(j) == 1 and Rl.coef(SELF) == 1:
                     base = Rl - Lin.sym(j) - Lin.sym(SELF)      # offset of first sender relative to self
@@ -623,24 +663,13 @@ def rule_SS6(ctx, rep):
                         okr = True
                         cnt = rb[1] - rb[0] + 1
                         rep.ok('SS6', fn, guards[0].test, f'a share goes to peers at offsets [{lo}, {hi}] mod m; a receiver collects from offsets [{rlo}, {rhi}]: same pairs')
-                        tdef = resolve_value(fn.node, ast.Name(id='t', ctx=ast.Load()))
-                        if cnt == Lin.sym('t'):
-                            rep.ok('SS6', fn, rcomp[0], 'exactly t foreign shares + own share = t+1 points')
+                        if cnt == Lin.sym('T'):
+                            rep.ok('SS6', fn, rcomp[0], 'exactly t foreign shares + own share = t+1 points (t = requested output threshold, default the runtime threshold)')
                         else:
-                            rep.bad('SS6', fn, rcomp[0], f'{cnt} foreign shares are collected, expected t')
+                            rep.bad('SS6', fn, rcomp[0], f'{cnt} foreign shares are collected, expected t (the requested output threshold, default self.threshold)')
         if not okr:
             rep.bad('SS6', fn, guards[0].test, f'send guard `{norm(guards[0].test)}` and receive enumeration `{norm(recvs[0].args[0])}` do not describe the same '
-                    '(sender, receiver) pairs modulo m: some receiver waits for a share nobody sends / recombines with a missing point')
-    # t is the requested threshold or the runtime threshold
-    tdefs = [v for _, v, _ in definitions(fn.node, 't')]
-    if len(tdefs) == 1 and isinstance(tdefs[0], ast.IfExp) and norm(tdefs[0].body) == 'self.threshold' and 'threshold is None' in norm(tdefs[0].test) \
-            and norm(tdefs[0].orelse) == 'threshold':
-        rep.ok('SS6', fn, tdefs[0], 'number of points follows the requested output threshold (default: runtime threshold)')
-    else:
-        rep.bad('SS6', fn, fn.qualname, 'the number of shares exchanged in output is not "threshold if given else self.threshold"', fn.node)
-    mdef = resolve_value(fn.node, ast.Name(id='m', ctx=ast.Load()))
-    if not (isinstance(mdef, ast.Call) and attr_tail(mdef.func) == 'len' and mentions_attr(mdef, 'parties')):
-        rep.bad('SS6', fn, fn.qualname, 'm in output is not len(self.parties)', fn.node)
+                    '(sender, receiver) pairs modulo len(self.parties): some receiver waits for a share nobody sends / recombines with a missing point')
     # ---- _reshare
     fn = model.func(RT + '_reshare')
     pm = parents(fn.node)
@@ -649,30 +678,31 @@ def rule_SS6(ctx, rep):
     splits = [c for c in iter_nodes(fn.node) if isinstance(c, ast.Call) and any('random_split' in t.key for t in ctx.flow.rs.resolve_call(fn, c))]
     if len(sends) != 1 or len(recvs) != 1 or len(splits) != 1:
         raise AnalysisError('SS6: _reshare no longer has one split, one send site and one receive site')
+    env = _canon_env(fn)
     guards = [i for i, br in enclosing_ifs(splits[0], pm, stop=fn.node) if br == 'body']
-    gi = [g for g in guards if _guard_interval(g.test)]
+    gi = [g for g in guards if _guard_interval(g.test, env)]
     lp = [l for l in enclosing_loops(recvs[0], pm, stop=fn.node) if isinstance(l, ast.For)]
     ok2 = False
     if gi and lp:
-        inner, mod, lo, hi = _guard_interval(gi[0].test)
-        il = _pid_lin(inner)
-        rb = _range_bounds(lp[0].iter)
+        inner, mod, lo, hi = _guard_interval(gi[0].test, env)
+        il = _pid_lin(inner, env)
+        rb = _range_bounds(lp[0].iter, env)
         Rm = _mod_term(recvs[0].args[0])
         v = norm(lp[0].target)
-        if il is not None and rb and Rm and norm(Rm[1]) == norm(mod) and norm(Rm[0]) == v and il.coef(SELF) == 1:
+        if il is not None and rb and Rm and _same_modulus(Rm[1], mod, env) and norm(Rm[0]) == v and il.coef(SELF) == 1:
             anchor = Lin.sym(SELF) - il                      # dealers are anchor + [lo, hi]
             if (rb[0] - anchor - lo) == Lin(0) and (rb[1] - anchor - hi) == Lin(0):
                 cnt = hi - lo + 1
-                if cnt == Lin.sym('t') * 2 + 1:
+                if cnt == Lin.sym('T') * 2 + 1:
                     ok2 = True
                     rep.ok('SS6', fn, gi[0].test, f'dealers are the parties {anchor} + [{lo}, {hi}] mod m on both the dealing and the collecting side: 2t+1 dealers')
                 else:
-                    rep.bad('SS6', fn, gi[0].test, f'{cnt} dealers take part in the resharing, expected 2t+1 (degree-2t products need 2t+1 points)')
+                    rep.bad('SS6', fn, gi[0].test, f'{cnt} dealers take part in the resharing, expected 2t+1 with t = self.threshold (degree-2t products need 2t+1 points)')
                     ok2 = True
     if not ok2:
         g0 = norm(guards[0].test) if guards else '<none>'
         rep.bad('SS6', fn, guards[0].test if guards else splits[0], f'the dealer test `{g0}` and the collection loop `{norm(lp[0].iter) if lp else "?"}` do not describe the same '
-                'set of 2t+1 dealers modulo m: a party outside the window deals as well / a dealer\'s sub-shares are never collected, so the new shares are inconsistent')
+                'set of 2t+1 dealers modulo len(self.parties): a party outside the window deals as well / a dealer\'s sub-shares are never collected, so the new shares are inconsistent')
     # own share excluded on both sides, used directly
     sg = [norm(i.test) + ':' + br for i, br in enclosing_ifs(sends[0], pm, stop=fn.node)]
     rg = [norm(i.test) + ':' + br for i, br in enclosing_ifs(recvs[0], pm, stop=fn.node)]
@@ -683,13 +713,10 @@ def rule_SS6(ctx, rep):
     # slots and own point
     slots = [st for st in iter_nodes(fn.node) if isinstance(st, ast.Assign) and isinstance(st.value, ast.BinOp) and isinstance(st.value.op, ast.Mult)
              and isinstance(st.value.left, ast.List) and norm(st.value.left) == '[None]']
-    if slots and to_lin(slots[0].value.right, opaque=False) == Lin.sym('t') * 2 + 1:
+    if slots and _pid_lin(slots[0].value.right, env) == Lin.sym('T') * 2 + 1:
         rep.ok('SS6', fn, slots[0], '2t+1 slots for the dealers\' sub-shares')
     else:
         rep.bad('SS6', fn, fn.qualname, 'the number of slots for collected sub-shares is not 2t+1', fn.node)
-    tdef = resolve_value(fn.node, ast.Name(id='t', ctx=ast.Load()))
-    if norm(tdef) != 'self.threshold':
-        rep.bad('SS6', fn, fn.qualname, 't in _reshare is not self.threshold', fn.node)
     # ---- transfer
     fn = model.func(RT + 'transfer')
     pm = parents(fn.node)
